@@ -173,6 +173,30 @@ def cache_check(chk, kf):
             chk.violation('results depend on the parser-table cache directory: %s gives %s with an empty cache and %s with a %s cache (%d probes differ)' % (p, a[:80], b[:80], mode, len(diff)),
                           dict(case=p, empty=a, other=b, cache=mode, count=len(diff)))
 
+def sweep_check(chk, kf, tier):
+    """the decoder and the lifter over the whole catalogue of instruction forms, in one process per shard: every form is decoded,
+    rendered and lifted in the given order, again in reverse order, and once more from the instruction objects kept from the first
+    pass; the three answers must agree (a result that depends on what was decoded or lifted before is a hidden input)"""
+    import liftgen, re
+    forms = liftgen.catalogue('quick')
+    forms = forms + ['d9f7', 'd9f6', '0401', '0501000000', '66050100', 'd8c1', 'dec1', 'd9f1', 'dae9', 'ddea', 'd8d9']
+    out = run_impl('impl_sweep.py', forms)
+    chk.cov['sweep_forms'] = len(forms); chk.cov['evaluations'] = chk.cov.get('evaluations', 0) + 3 * len(forms)
+    byclass = {}
+    for h, o in zip(forms, out):
+        if o == 'ok': continue
+        m = re.match(r'DIFF (\S+) (\S+) \| (.*) \| (.*)$', o)
+        if not m:
+            byclass.setdefault('sweep:runner', []).append((h, o, '', '')); continue
+        mn = (m.group(3).split() or ['?'])[0] if m.group(2) == 'text' else h[:4]
+        byclass.setdefault('sweep:%s:%s' % (m.group(1), m.group(2)), []).append((h, m.group(3), m.group(4), mn))
+    for cl, items in sorted(byclass.items()):
+        if cl in kf:
+            chk.report_known(cl, kf[cl]['what'] + ' (%d forms in this run)' % len(items)); continue
+        h, a, b, mn = items[0]
+        chk.violation('decoding / lifting %s gives %s the first time and %s %s within one process (%d forms of class %s)' % (h, a[:160], b[:160], 'when the same bytes are decoded again later' if 'second' in cl else 'when the instruction object kept from the first time is used again', len(items), cl),
+                      dict(case=h, first=a, other=b, history_class=cl, count=len(items), key=cl, forms=[i[0] for i in items[:20]]))
+
 def run(tier):
     chk = Check('C12', tier)
     if not chk.prove():
@@ -209,9 +233,10 @@ def run(tier):
         chk.violation('after the history %s the call %s returns %s; its pure answer is %s (%d calls of class %s)' % (json.dumps(small[:-1])[:400], json.dumps(small[-1])[:200], got[:160], want[:160], len(items), cl),
                       dict(case=json.dumps(small), got=got, want=want, history_class=cl, count=len(items), key=key))
     cache_check(chk, kf)
+    sweep_check(chk, kf, tier)
     chk.cov['rule'] = ('histories of 4..50 API calls (mk/machine/simp/eval/eval_instr/dis/lift/asm/asm_att/raising calls) on shared expression objects and machines; every call answer is compared with its pure '
                        'answer (Gallina models for simp/eval/eval_instr; a fresh process for dis/lift/asm/asm_att); inputs re-serialised after every call; digest of the shared x86 tables before/after; '
-                       'assembler probes under empty, warm and stale (swapped) parser-table cache directories. Non-trivial = distinct history longer than 3 calls')
+                       'assembler probes under empty, warm and stale (swapped) parser-table cache directories; catalogue sweep: every instruction form of the lifted catalogue decoded, rendered and lifted three times in one process (given order, reverse order, kept objects) with identical answers required. Non-trivial = distinct history longer than 3 calls')
     chk.cov['samples'] = [dict(history=json.dumps(h)[:400]) for h in hists[:3]]
     return chk.finish(assumptions=['the pure answers of simp/eval/eval_instr are the Gallina models Simp.v / EvalAbs.v (functions of their explicit arguments by construction)',
                                    'on-disk caches and process-global state are runtime facts outside Gallina: exercised by execution only'])
